@@ -13,7 +13,7 @@ RULE = {"C19": "four helpers, each driven by random sample sequences under the p
                "(levels on both sides of the bypass level), SimpleWatchdog (reset/enable/setTimeout/isExpired/printIfExpired, "
                "timeouts n/1e6 for whole-microsecond n, landings exactly on the timeout).  Non-trivial = sequence with >=2 "
                "state changes / True results / passed low-level records / expiry flips; distinct = hash of the sequence."}
-REQUIRED = {"C19": {"toggle-edge-flip": 2000, "toggle-held-no-flip": 2000, "toggle-on-off-pair": 500, "toggle-real-joystick-case": 20,
+REQUIRED = {"C19": {"toggle-edge-flip": 2000, "toggle-held-no-flip": 2000, "toggle-on-off-pair": 500, "toggle-real-joystick-case": 20, "toggle-nonbool-levels": 50,
                     "toggle-debounce-flip": 300, "toggle-debounce-suppressed-edge": 100,
                     "debouncer-true": 1000, "debouncer-suppressed-press": 1000, "debouncer-required-true": 300, "debouncer-exact-strict": 30,
                     "filter-bypass-pass": 1000, "filter-low-pass": 500, "filter-low-suppressed": 1000, "filter-through-real-logger": 50,
@@ -39,9 +39,12 @@ class FakeJoy:
         self.level = False
         self.reads = 0
 
+    truthy = True     # what a pressed button reads as (custom button sources return masked ints such as 2 or 4)
+    falsy = False
+
     def getRawButton(self, n):
         self.reads += 1
-        return self.level
+        return self.truthy if self.level else self.falsy
 
 
 def _clock():
@@ -100,6 +103,9 @@ def run_toggle(acc, case):
     else:
         joy = FakeJoy()
         btn = case.get("button", 3)
+        if case.get("levels"):
+            joy.truthy, joy.falsy = case["levels"]
+            acc.ev("toggle-nonbool-levels")
 
         def set_level(v):
             joy.level = v
@@ -429,7 +435,8 @@ def run_watchdog(acc, case):
 def gen_case(rng, kind):
     grid = rng.random() < 0.35
     if kind in ("toggle", "toggle_real"):
-        c = {"kind": "toggle", "grid": grid, "samples": gen_samples(rng, rng.choice([20, 60, 150]), grid), "button": rng.randrange(1, 8)}
+        c = {"kind": "toggle", "grid": grid, "samples": gen_samples(rng, rng.choice([20, 60, 150]), grid), "button": rng.randrange(1, 8),
+             "levels": rng.choice([None, None, [1, 0], [2, 0], [4, 0], [True, None], [0x80, 0]])}
         if kind == "toggle_real":
             c["real"] = True
             c["stick"] = rng.randrange(0, 6)
@@ -451,7 +458,7 @@ def gen_case(rng, kind):
     if kind == "filter":
         import logging
         period = rng.choice([0.5, 1.0, 3, 0.25, 2.0, 0.125])
-        bypass = rng.choice([None, None, logging.INFO, logging.ERROR, logging.WARN, 25, logging.DEBUG])
+        bypass = rng.choice([None, None, logging.INFO, logging.ERROR, logging.WARN, 25, logging.DEBUG, logging.NOTSET])
         recs = []
         for _ in range(rng.choice([30, 100, 300])):
             adv = rng.choice([0.0, 0.015625, 0.125, 0.25, 0.5, 1.0, period, period / 2, period * 2, rng.randrange(0, 256) / 64])
